@@ -35,7 +35,7 @@ REPLAY = os.path.join(EVIDENCE, 'replay')
 NCPU = min(16, os.cpu_count() or 4)
 
 
-def jobs() -> int:
+def n_jobs() -> int:
     """Parallel coqc processes: all cores on an idle machine, fewer when it is already loaded."""
     if os.environ.get('VERIF_JOBS'):
         return max(1, int(os.environ['VERIF_JOBS']))
@@ -282,7 +282,7 @@ class Ctx:
             txt = m.group(1)
             return [base + int(x) for x in re.findall(r'\d+', txt)] if txt != 'nil' else []
 
-        with concurrent.futures.ThreadPoolExecutor(max_workers=jobs()) as ex:
+        with concurrent.futures.ThreadPoolExecutor(max_workers=n_jobs()) as ex:
             for res in ex.map(one, jobs):
                 bad.extend(res)
         self.coq_calls += len(jobs)
